@@ -365,14 +365,26 @@ def flux_oracle(n, T, pi, q, F, NF, RP, sources, sinks):
     return obs
 
 
-def flux_job(n, sources, sinks, zero_pattern=None, container=None, layout='C'):
+def flux_job(n, sources, sinks, zero_pattern=None, container=None, layout='C', reuse=False):
     tc = loader.load('enspara.tpt.core')
     tt = loader.load('enspara.tpt.tpt')
 
     def path(ctx):
         T, pi = sym_stochastic(ctx, n, zero_pattern, reversible=True)
-        A = lay(funcs.np_array(T, dtype=float), layout)
-        P = funcs.np_array(pi, dtype=float)
+        if reuse:
+            # history: the SAME array objects held another model before and were analysed with the same sources / sinks; they are then
+            # overwritten in place.  The results must describe the current contents (no state carried between calls)
+            T_old, pi_old = sym_stochastic(ctx, n, zero_pattern, reversible=True)
+            A = lay(funcs.np_array(T_old, dtype=float), layout)
+            P = funcs.np_array(pi_old, dtype=float)
+            tt.reactive_fluxes(A, list(sources), list(sinks), populations=P)
+            tt.net_fluxes(A, list(sources), list(sinks), populations=P)
+            tt.reactive_populations(A, list(sources), list(sinks), populations=P)
+            A[...] = funcs.np_array(T, dtype=float)
+            P[...] = funcs.np_array(pi, dtype=float)
+        else:
+            A = lay(funcs.np_array(T, dtype=float), layout)
+            P = funcs.np_array(pi, dtype=float)
         A0, P0 = A.copy(), P.copy()
         arg = as_container(A, container)
         exc = None
@@ -398,6 +410,20 @@ def flux_job(n, sources, sinks, zero_pattern=None, container=None, layout='C'):
             out = {'inputs': {'tprob': Tc, 'populations': pc, 'sources': list(sources), 'sinks': list(sinks), 'container': container or 'ndarray',
                               'memory_layout': layout}}
             Ac, Pc = as_container(lay(np.array(Tc), layout), container), np.array(pc)
+            if reuse:
+                To, po = model_matrix(model, T_old), [fl(ev(model, p)) for p in pi_old]
+                out['inputs']['earlier contents of the same arrays (analysed first, then overwritten in place)'] = {'tprob': To, 'populations': po}
+                Ac, Pc = lay(np.array(To), layout), np.array(po)
+                with core.concrete_mode():
+                    try:
+                        tt.reactive_fluxes(Ac, list(sources), list(sinks), populations=Pc)
+                        tt.net_fluxes(Ac, list(sources), list(sinks), populations=Pc)
+                        tt.reactive_populations(Ac, list(sources), list(sinks), populations=Pc)
+                    except Exception as e:
+                        out.update(exception=repr(e), out=None, violated=['raises ' + type(e).__name__], signature='exception:' + type(e).__name__)
+                        return out
+                Ac[...] = np.array(Tc)
+                Pc[...] = np.array(pc)
             with core.concrete_mode():
                 try:
                     qc = tc.committors(Ac, list(sources), list(sinks))
